@@ -60,6 +60,8 @@ theorem regOK : RegOK reg := by
     simp at hp
     rcases hp with rfl | rfl <;> rfl
 
+def reg2 : Reg := { types := [("Int", .int), ("Float", .float)] }
+
 /-- through a variable: nested recursive object, defaults filled (fix A2), enum name → internal value,
     single value wrapped into the list, python names as keys -/
 example :
@@ -70,10 +72,10 @@ example :
 
 /-- the same value written inline gives the same result (an instance of `literal_variable_equiv`) -/
 example :
-    valueFromAst reg none 10 (.named "Rec")
-      (.obj [("e", .enum "B"), ("kids", .obj [("v", .int 2147483647)])]) =
-    coerceValue reg 10 (.named "Rec")
-      (.obj [("e", .str "B" none none), ("kids", .obj [("v", .int 2147483647)])]) :=
+    (valueFromAst reg none 10 (.named "Rec")
+      (.obj [("e", .enum "B"), ("kids", .obj [("v", .int 2147483647)])])).toOption =
+    (coerceValue reg 10 (.named "Rec")
+      (.obj [("e", .str "B" none none), ("kids", .obj [("v", .int 2147483647)])])).toOption :=
   literal_variable_equiv reg none 10 _ _ _
     (.obj (fs := recFields) rfl
       (.cons (fun f hf hn => by
@@ -120,6 +122,15 @@ example : coerceArgumentValues reg 5 [("o", .none)] [("x", .var "o")]
 /-- fix A4 / A5: structurally wrong JSON for Boolean, unknown field in a literal -/
 example : coerceValue reg 3 (.named "Boolean") (.list [.int 1]) = .error .coercion := by rfl
 example : valueFromAst reg none 3 (.nonNull (.named "Rec")) (.obj [("zzz", .int 1)]) = .error .coercion := by rfl
+
+/-- fix X2: non-finite floats are refused at Float on both routes; a finite one passes; `int(inf)` escapes from coerce_int -/
+example : coerceValue reg2 1 (.named "Float") (.float "inf" none .inf) = .error .coercion := by rfl
+example : coerceValue reg2 1 (.named "Float") (.str "nan" none (some ("nan", none, .nan))) = .error .coercion := by rfl
+example : valueFromAst reg2 none 1 (.named "Float") (.float "1e999" .inf) = .error .coercion := by rfl
+example : coerceValue reg2 1 (.named "Float") (.float "1.5" none .finite) = .ok (.float (.text "1.5")) := by rfl
+example : coerceValue reg2 1 (.named "Int") (.float "inf" none .inf) = .error .internal := by rfl
+/-- a collected CoercionError does not hide a later escaping exception (`_coerce_list_value` goes on) -/
+example : coerceValue reg2 2 (.list (.named "Int")) (.list [.str "x" none none, .float "inf" none .inf]) = .error .internal := by rfl
 
 /-- why A1 was a defect: the strict comparison that today's source uses refuses both boundaries -/
 example : ¬ (∀ n : Int, (decide (Generated.Scalars.MIN_INT < n) && decide (n < Generated.Scalars.MAX_INT)) = true ↔ InRange32 n) := by
